@@ -682,7 +682,14 @@ class Context(object):
     append = push
 
     def __contains__(self, key):
-        return key in self.top
+        # The placeholder made up when an unrecognized command was first
+        # met (see __getitem__) is not a definition
+        try:
+            value = self.top[key]
+        except KeyError:
+            return False
+        return not (isinstance(value, type) and
+                    issubclass(value, plasTeX.UnrecognizedMacro))
 
     def mapMethods(self):
         # Getter methods use the most local context
